@@ -798,7 +798,7 @@ func init() {
 		Level: "exploration",
 		Rule: "case = the real Explore + scrape.Manager + TargetsDiscovery wired as in cmd/kvass/coordinator.go, 30-300 loopback HTTP targets with scripted latency (0-300 ms), 0-2 (thorough: up to 4) failing probes (HTTP 500, 204, connection closed mid-body with FIN or with a TCP reset) before the first success, 1-200 explorer workers, the real 5 s retry interval; " +
 			"during the run a discovery update removes a third of the targets inside the retry sleep, a later one re-adds most of them, then a reload keeps or drops job jb; every second case also runs the real coordinator against a stub shard with unlimited room; " +
-			"monitors: arrival/departure/outcome/in-flight count of every request at the targets, Explore.Get results polled every 40 ms (not in the -race pass), POST bodies at the stub shard; oracle = per-target probe-lifecycle automaton per presence period (probed once asked for, single flight, retry no earlier than the interval and within interval+15 s, silence after success, at most one probe after removal), estimate = payload counts only after a success, no assignment before a successful probe; " +
+			"monitors: every request at the targets (outcome, departure) stamped with the moment it left the explorer's HTTP client (a stamping RoundTripper on JobInfo.Cli, which also logs attempts that never reach a target or never return), Explore.Get results polled every 40 ms (not in the -race pass), POST bodies at the stub shard; oracle = per-target probe-lifecycle automaton per presence period (probed once asked for, single flight, retry no earlier than the interval and within interval+15 s, silence after success, at most one probe after removal), estimate = payload counts only after a success, no assignment before a successful probe; " +
 			"plus cases in which a job's HTTP client cannot be built when its targets are first asked for (CA file missing at that reload) and can after a later reload: within interval + 10 s of the repair every target must have been probed and carry a healthy estimate; and cases in which a reload changes a job's metric relabel rules and params before a new target of that job is probed for the first time (estimate under the new rules, request with the new params); and cases with a configured param that some targets override through a __param_ label next to a configured param with three values (each selecting further series) (every probe carries its own target's params, whatever was probed before); " +
 			"plus 2/6 cases on the REAL coordinator binary (engine E7, --sd.init-timeout 6-8 s): one target answers 503 for good, another is added to the configuration 3 s after the start-up window has passed: the new one must be assigned (so it was probed) within 80 coordination cycles and the failing one must be probed again within 150; " +
 			"plus 1/4 flood cases: more than 10000 + workers targets are asked for in one period while every probe is held at the target until the asking stalls or ends (the explorer's queue holds 10000): every one must be probed exactly once and carry the probe's estimate; " +
